@@ -709,6 +709,10 @@ typedef struct {
     JanetTable *reg;
     JanetFuncEnv **lookup_envs;
     JanetFuncDef **lookup_defs;
+    /* Functions that use a definition which was still being read (reached through the
+     * definition's own constants), with the environment count each was created with. */
+    JanetFunction **pending_funcs;
+    int32_t *pending_envcounts;
     const uint8_t *start;
     const uint8_t *end;
 } UnmarshalState;
@@ -910,7 +914,7 @@ static const uint8_t *unmarshal_one_def(
         /* Initialize with values that will not break garbage collection
          * if unmarshalling fails. */
         JanetFuncDef *def = janet_gcalloc(JANET_MEMORY_FUNCDEF, sizeof(JanetFuncDef));
-        def->environments_length = 0;
+        def->environments_length = -1; /* not known yet */
         def->defs_length = 0;
         def->constants_length = 0;
         def->bytecode_length = 0;
@@ -1067,6 +1071,14 @@ static const uint8_t *unmarshal_one_def(
         /* Validate */
         if (janet_verify(def))
             janet_panic("funcdef has invalid bytecode");
+
+        /* Functions met while this definition was incomplete must agree with it as well */
+        for (int32_t i = 0; i < janet_v_count(st->pending_funcs); i++) {
+            if (st->pending_funcs[i]->def == def && st->pending_envcounts[i] != def->environments_length) {
+                janet_panicf("invalid function - has %d environments, its definition needs %d",
+                             st->pending_envcounts[i], def->environments_length);
+            }
+        }
 
         /* Set def */
         *out = def;
@@ -1478,7 +1490,11 @@ static const uint8_t *unmarshal_one(
             *out = janet_wrap_function(func);
             janet_v_push(st->lookup, *out);
             data = unmarshal_one_def(st, data, &def, flags + 1);
-            if (def->environments_length != len) {
+            if (def->environments_length < 0) {
+                /* The definition is still being read further up: checked when it is complete */
+                janet_v_push(st->pending_funcs, func);
+                janet_v_push(st->pending_envcounts, len);
+            } else if (def->environments_length != len) {
                 janet_panicf("invalid function - has %d environments, its definition needs %d",
                              len, def->environments_length);
             }
@@ -1699,6 +1715,8 @@ Janet janet_unmarshal(
     st.lookup_defs = NULL;
     st.lookup_envs = NULL;
     st.lookup = NULL;
+    st.pending_funcs = NULL;
+    st.pending_envcounts = NULL;
     st.reg = reg;
     Janet out;
     const uint8_t *nextbytes = unmarshal_one(&st, bytes, &out, flags);
@@ -1706,6 +1724,8 @@ Janet janet_unmarshal(
     janet_v_free(st.lookup_defs);
     janet_v_free(st.lookup_envs);
     janet_v_free(st.lookup);
+    janet_v_free(st.pending_funcs);
+    janet_v_free(st.pending_envcounts);
     return out;
 }
 
